@@ -109,6 +109,7 @@ def run(tr):
     for idx, e in enumerate(tr):
         t = e[0]
         if t == CLOCK:
+            clock_checks(S, idx)
             S.now = e[1]
         elif t == SPAWN:
             A[e[1]] = Actor(e[1], e[2:])
@@ -257,8 +258,12 @@ def run(tr):
             if o in S.handled:
                 S.bad("C01", f"message o{o} handled twice", idx)
             S.handled.add(o)
+            x.hbegins = getattr(x, "hbegins", 0) + 1
             x.busy = o
             x.hbegin_time = S.now
+            if getattr(x, "fatal_timeout", None) is not None:
+                S.bad("C11", f"a{a} was configured with fail_on_timeout and abandoned the handler of o{x.fatal_timeout} at its limit, yet it goes on to handle o{o} instead of terminating as failed", idx)
+                x.fatal_timeout = None
             if x.dead is not None:
                 S.bad("C06" if not x.graceful else "C03", f"handler entered on a{a} after its task ended", idx)
                 S.bad("C10", f"a message was handled on a{a} after it terminated", idx)
@@ -303,6 +308,7 @@ def run(tr):
                 x.abandoned_at = idx
                 if x.failto:
                     x.failed = True
+                    x.fatal_timeout = o
             if st == 0 and x.timeout is not None and not x.stream and S.now > x.hbegin_time + x.timeout:
                 S.bad("C11", f"handler of o{o} completed at t={S.now} beyond the limit t={x.hbegin_time + x.timeout}", idx)
             if st == 2:
@@ -376,6 +382,8 @@ def run(tr):
                     x.pending_restart = True
             if pk == 1:
                 x.deq_stop = True
+            if pk == 0:
+                x.deq_tasks = getattr(x, "deq_tasks", 0) + 1
         elif t == TASKEND:
             a, how = e[1], e[2]
             x = A.get(a)
@@ -522,6 +530,10 @@ def run(tr):
             a = S.h.get(hid, (None, None))[0] if k in (2, 3) else None
             S.reg_ops[o] = {"k": k, "ty": ty, "a": a, "idx": idx}
             S.rpend += 1
+        elif t == PROBE:
+            x = A.get(e[1])
+            if x:
+                x.probes = getattr(x, "probes", 0) + 1
         elif t == QUIESCE:
             final_checks(S, idx)
     return S
@@ -598,6 +610,30 @@ def reg_ret(S, o, e, idx):
                 S.bad("C14", f"already_running of type {ty} said {names[code] if code is not None else code} for a{cur} which {'has terminated' if A[cur].dead is not None else 'is alive'}", idx)
 
 
+def unheld_alive(S, x):
+    """x is alive, idle and started, and nothing holds it strongly: no handle anywhere, not the
+    registry, no parent's child list. Evaluated where the executor is idle (clock / quiescence):
+    then its mailbox is empty and no submission is under way, so only a leaked strong reference
+    (a timer, a subscription, the context) can be keeping it alive."""
+    A = S.actors
+    if x.dead is not None or x.strong > 0 or x.registry_held or x.inc == 0 or x.busy is not None or x.in_cb is not None or x.entry == 6:
+        return False
+    if S.uses_registry or any(hid in S.h for (_, hid) in x.children):
+        return False
+    holders = [p for p in A.values() if any(S.h.get(hid, (None,))[0] == x.aid for (_, hid) in p.children) and p.dead is None]
+    return not holders
+
+
+def clock_checks(S, idx):
+    """the executor is idle and about to advance the clock"""
+    for x in S.actors.values():
+        if unheld_alive(S, x) and not x.stream:
+            live_timers = [k for k, tm in x.timers.items() if not tm["ended"]]
+            S.bad("C05", f"a{x.aid} is still running when the clock advances although no strong handle to it exists any more" + (f" (live timer tasks: {live_timers})" if live_timers else ""), idx)
+            if live_timers:
+                S.bad("C10", f"a{x.aid} outlives its last strong handle while only its timer tasks {live_timers} exist: a timer keeps the actor alive", idx)
+
+
 def final_checks(S, idx):
     A = S.actors
     for op in S.ops.values():
@@ -613,6 +649,18 @@ def final_checks(S, idx):
             S.bad("C02", f"join o{op.o} of terminated a{op.aid} never resolved", idx)
         if op.ret is None and op.kind == K_SEND and x.dead is None and x.busy is None and x.in_cb is None:
             S.bad("C12", f"send o{op.o} never returned although a{op.aid} is idle", idx)
+    hb = defaultdict(int)
+    for o in S.handled:
+        pass
+    for x in A.values():
+        if x.entry == 6 and x.ty == 9:
+            continue          # a library actor (broker): its messages are not client operations
+        n_deq = getattr(x, "deq_tasks", 0)
+        n_h = getattr(x, "hbegins", 0)
+        n_ping = sum(1 for op in S.ops.values() if op.aid == x.aid and op.kind == K_PING) + getattr(x, "probes", 0)
+        if n_deq > n_h + n_ping and not x.crashing:
+            S.bad("C13" if x.stream else "C01", f"a{x.aid} took {n_deq} messages out of its mailbox but entered only {n_h} handlers (and at most {n_ping} pings were answered): a message that had left the mailbox was dropped unhandled", idx)
+            S.bad("C02", f"a{x.aid} took {n_deq} messages out of its mailbox but entered only {n_h} handlers: an accepted message was dropped", idx)
     for x in A.values():
         if x.dead is not None:
             for k, tm in x.timers.items():
@@ -620,10 +668,8 @@ def final_checks(S, idx):
                     S.bad("C10", f"timer task {k} of terminated a{x.aid} is still alive at quiescence", idx)
         else:
             # still alive at quiescence: somebody must hold it
-            if x.strong <= 0 and not x.registry_held and x.inc > 0 and x.busy is None and x.in_cb is None and x.entry != 6 and not any(hid in S.h for (_, hid) in x.children):
-                holders = [p for p in A.values() if any(S.h.get(hid, (None,))[0] == x.aid for (_, hid) in p.children) and p.dead is None]
-                if not holders and not S.uses_registry:
-                    S.bad("C05", f"a{x.aid} is still running at quiescence without any strong handle", idx)
+            if unheld_alive(S, x):
+                S.bad("C05", f"a{x.aid} is still running at quiescence without any strong handle", idx)
             if x.stream and x.stream_ended:
                 S.bad("C13", f"stream of a{x.aid} ended but the actor did not terminate", idx)
         # broadcasts: exactly one copy per registered child of that type
@@ -702,8 +748,39 @@ def c09_broker(tr, S):
     copy_of = {}                 # clone o' -> (actor, src, topic)
     seen = defaultdict(list)     # (actor, topic) -> [src] in handling order
     complete = any(e[0] == QUIESCE for e in tr) and not any(e[0] == BUDGET for e in tr)
+    busy = defaultdict(int)      # actor -> handlers / callbacks running
+    flagged = set()
+
+    def quiet_check(idx):
+        # The executor is idle. If no fan-out is under way, every broker has emptied its mailbox
+        # (it would be runnable otherwise), so every publication whose publish returned has been
+        # fanned out; an idle subscriber has emptied its mailbox too. A subscriber whose
+        # subscription completed before the publish began, never asked to be unsubscribed, alive
+        # and strongly held, must therefore have handled it by now.
+        if fan:
+            return
+        for o, p in tops.items():
+            if p["kind"] != 0 or not p["ok"] or p["ret"] is None:
+                continue
+            for q in tops.values():
+                if q["kind"] == 1 and q["topic"] == p["topic"] and q["ok"] and q["ret"] is not None and q["ret"] < p["begin"]:
+                    a = q["x"]
+                    if (o, a) in flagged or a in dead or strong[a] <= 0 or busy[a] > 0:
+                        continue
+                    if any(u["kind"] == 2 and u["topic"] == p["topic"] and u["x"] == a for u in tops.values()):
+                        continue
+                    if o not in seen[(a, p["topic"])]:
+                        flagged.add((o, a))
+                        bad(f"publication o{o} on topic {p['topic']} returned Ok at event {p['ret']}, the brokers and a{a} are idle, yet a{a} - whose subscription completed before the publish began and which is alive and strongly held - has not handled it: the publication was lost", idx)
+
     for idx, e in enumerate(tr):
         t = e[0]
+        if t in (CLOCK, QUIESCE):
+            quiet_check(idx)
+        elif t in (HBEGIN, CBBEGIN, ITEMBEGIN):
+            busy[e[1]] += 1
+        elif t in (HEND, CBEND, ITEMEND):
+            busy[e[1]] = max(0, busy[e[1]] - 1)
         if t == HANDLE:
             hk[e[1]] = (e[2], e[3] in STRONG)
             if e[3] in STRONG:
